@@ -2,7 +2,7 @@ SPECIFICATION Spec
 CONSTANT MaxN = 4
 CONSTANT AllOps = TRUE
 CONSTANT NFam = 2
-CONSTANT Pats = {"all", "first", "even", "odd"}
+CONSTANT Pats = {"all", "first", "odd"}
 CONSTANT PrintAll = FALSE
 INVARIANT TreeAgrees
 INVARIANT DeclAgrees
